@@ -65,7 +65,8 @@ def shards(tier):
 # ------------------------------------------------------------------ entry / judge
 def entries_for(plan, pt):
     if plan["ser"] == "compact":
-        out = ["jwe.decrypt_compact"]
+        # ':nested' - the key is resolved by a callable that itself opens another compact JWE (say, a stored data key) first
+        out = ["jwe.decrypt_compact", "jwe.decrypt_compact:nested"]
         try:
             if isinstance(json.loads(pt), dict) and not plan["sender"]:  # jwt.decode cannot be given a sender key
                 out.append("jwt.decode")
@@ -78,18 +79,26 @@ def entries_for(plan, pt):
 
 
 _CACHE: dict = {}
+_OTHER = [None]      # a second valid token under the same keys (set per case), used by the ':nested' entry
 
 
 def _keys(plan):
-    ck = json.dumps([plan["recipients"], plan["sender"]], sort_keys=True)
-    v = _CACHE.get(ck)
-    if v is None:
-        if len(_CACHE) > 6:
-            _CACHE.clear()
-        from gens.jose import jkey
-        sender = jkey(rk.public_of(gk.key_from_record(plan["sender"])), "dict", False) if plan["sender"] else None
-        v = _CACHE[ck] = (jp.jose_private_keys(plan), sender)
-    return v
+    """Long-lived key objects: the recipient's private key objects are the same whoever the sender is (a recipient keeps its key
+    while it hears from several senders), sender key objects are per sender key."""
+    from gens.jose import jkey
+    if len(_CACHE) > 12:
+        _CACHE.clear()
+    ck = "R" + json.dumps([{k: v for k, v in r.items() if k in ("key", "kid")} for r in plan["recipients"]], sort_keys=True)
+    keys = _CACHE.get(ck)
+    if keys is None:
+        keys = _CACHE[ck] = jp.jose_private_keys(plan)
+    sender = None
+    if plan["sender"]:
+        sk = "S" + json.dumps(plan["sender"], sort_keys=True)
+        sender = _CACHE.get(sk)
+        if sender is None:
+            sender = _CACHE[sk] = jkey(rk.public_of(gk.key_from_record(plan["sender"])), "dict", False)
+    return keys, sender
 
 
 def call_entry(entry, token, plan, index=0):
@@ -99,6 +108,14 @@ def call_entry(entry, token, plan, index=0):
     tok = copy.deepcopy(token)
     if entry == "jwe.decrypt_compact":
         return jwe.decrypt_compact(tok, keys[0], algorithms=jp.ALL_NAMES, sender_key=sender).plaintext, False
+    if entry == "jwe.decrypt_compact:nested":
+        other = _OTHER[0]
+
+        def resolve(obj):
+            if isinstance(other, str):
+                jwe.decrypt_compact(other, keys[0], algorithms=jp.ALL_NAMES, sender_key=sender)
+            return keys[0]
+        return jwe.decrypt_compact(tok, resolve, algorithms=jp.ALL_NAMES, sender_key=sender).plaintext, False
     if entry == "jwt.decode":
         reg = jwe.JWERegistry(algorithms=jp.ALL_NAMES)
         return jwt.decode(tok, keys[0], registry=reg).claims, True
@@ -537,6 +554,7 @@ def forged_invalid_epk(plan, case, kind):
 
 
 def run_fault(case, plan, token, token2, fault, entry):
+    _OTHER[0] = token2
     if fault["kind"] == "base":
         return judge(entry, token, plan)
     if fault["kind"] == "keysub":
